@@ -152,8 +152,10 @@ def gen_rule(rng, kind=None, kinds=None):
         r["Label"] = rng.choice(["", "foo"]) if not peer else ""
         r["Attr"] = ""
         r["Opt"] = ""
-        r["PeerLabel"] = rng.choice(PEERS) if peer else ""
+        r["PeerLabel"] = rng.choice(PEERS + [""]) if peer else ""
         r["PeerAddr"] = rng.choice(["", "none", "@/tmp/dbus-@{rand8}"]) if peer else ""
+        if peer and not r["PeerLabel"] and not r["PeerAddr"]:      # a peer by address only is the common shipped shape
+            r["PeerAddr"] = "@/tmp/.X11-unix/X@{int}"
     elif kind == "dbus":
         r.update(qual(rng))
         x = rng.random()
